@@ -17,7 +17,7 @@ PROPS = {
             "max_queue_size answer of the transport >= the driver's queue size in the theorems (refusals are compared dynamically under C09)",
             "transport/x86_64 (hypercalls) cannot run in user space: excluded",
         ],
-        "explanation": "Theorems: begin_init/finish_init shape; for each of the 11 drivers, every offered word and both layouts the composed constructor runs the status automaton 0,3,read,write,11,queues..,15 with notifications only after 15 and writes offered&supported once; VERSION_1 accepted when offered; decide-theorems over the regenerated skeletons (no notify before finish_init, queues between begin_init and finish_init, queue flags = negotiated bits 28/29/33); gated operations silent without their feature; net header 12 bytes iff VERSION_1. Correspondence: ordered transport/HAL event list of every driver x feature word x layout on the model transport (and the register trace of the real MmioTransport folded back to calls) against the model; oracles written from virtio 1.x 3.1.1.",
+        "explanation": "Theorems: begin_init/finish_init shape; for each of the 11 drivers, every offered word and both layouts the composed constructor runs the status automaton 0,3,read,write,11,queues..,15 with notifications only after 15 and writes offered&supported once; VERSION_1 accepted when offered; decide-theorems over the regenerated skeletons (no notify before finish_init, queues between begin_init and finish_init, queue flags = negotiated bits 28/29/33); gated operations silent without their feature; net header 12 bytes iff VERSION_1. Correspondence: ordered transport/HAL event list of every driver x feature word x layout on the model transport, and the register trace of the real MmioTransport (legacy and modern) over an emulated virtio-mmio device folded back to calls, against the model (PciTransport not run by this check); oracles written from virtio 1.x 3.1.1.",
         "timeout": {"quick": 900, "thorough": 3600},
     },
     "C09": {
@@ -27,7 +27,7 @@ PROPS = {
             "transports reset the device when dropped (MmioTransport, PciTransport: see their Drop impls; the model transport emulates it); drivers without a Drop calling queue_unset (sound, 9p, buffered net wrapper) rely on that",
             "VirtQueue::add on a fresh queue of SIZE single-descriptor chains cannot fail (C01/C03), so OwningQueue::new and the posting loops fail only as modelled",
         ],
-        "explanation": "Theorems (decide over the regenerated tables, every driver x layout x flag combination x k): failing the k-th DMA allocation yields DmaError, the ledger of the emitted events is balanced (each region released exactly once with its page count, nothing else released), and no queue region / posted buffer is released while the device is live on that queue; same for config-space failures, queue refusals and for dropping the constructed driver. Correspondence: fault injection at every k, config failures, refusals, drop after construction and after use, ordered log compared with the model; oracles: ledger balanced, no release while live (status/queue state at each dealloc), error-not-panic.",
+        "explanation": "Theorems (decide over the regenerated tables, every driver x layout x flag combination x k): failing the k-th DMA allocation yields DmaError, the ledger of the emitted events is balanced (each region released exactly once with its page count, nothing else released), and no queue region / posted buffer is released while the device is live on that queue; same for config-space failures, queue refusals and for dropping the constructed driver. Correspondence: fault injection at every k, config failures, refusals, drop after construction and after use on the model transport, fault injection + drop on the real MmioTransport (legacy, modern; PciTransport not run), ordered log compared with the model; oracles: ledger balanced, no release while live (status/queue state at each dealloc), error-not-panic.",
         "timeout": {"quick": 900, "thorough": 3600},
     },
 }
